@@ -131,6 +131,8 @@ def _any_sym(*arrs):
             return True
         if isinstance(a, _np.ndarray) and a.dtype == object:
             return True
+        if isinstance(a, (list, tuple)) and any(isinstance(x, SReal) for x in a):
+            return True
     return False
 
 
